@@ -13,7 +13,7 @@ CLAUSE_PROPERTY = {
     "C01_Exact": "C01", "C01_OnlyAdded": "C01",
     "C03_Notes": "C03", "C03_Blame": "C03",
     "C05_WellFormed": "C05", "C02_Carried": "C02", "C14_Stutter": "C14",
-    "C11_NothingLost": "C11",
+    "C11_NothingLost": "C11", "C06_Same": "C06",
     "C10_Converged": "C10", "C10_NoForeign": "C10", "C10_NeverRemoved": "C10",
     "C08_NoTranscript": "C08", "C08_Masked": "C08", "C09_Overlay": "C09", "C09_Formats": "C09", "C19_Stats": "C19",
     "Twin_Obs": "C15", "Twin_Exact": "C15", "Twin_Blame": "C15",
@@ -172,6 +172,12 @@ def run_core(pid, tier, seed, plan):
                              "mode": "simulate" if camp.get("simulate") else "exhaustive",
                              "behaviours": len(beh), "replayed": len(jobs), "tag_vectors": ntags,
                              "consts": {k: consts[k] for k in consts if k not in ("Mode",)}})
+    # vacuity guard: actions the plan is about must have been replayed at least once
+    missing = [a for a in plan.get("expect_actions", {}).get(tier, plan.get("expect_actions", {}).get("any", []))
+               if coverage_actions.get(a, 0) == 0]
+    if missing:
+        print("TOOL-ERROR: the check never exercised %s (vacuous run)" % missing)
+        return 2
     # ---------------------------------------------------------------- report
     for kid, rs in sorted(known_hits.items()):
         k = [x for x in known if x["id"] == kid][0]
